@@ -709,7 +709,7 @@ class WhenRef:
             c.setdefault("mode", rng.choice(cls.CONDS))
             for p in ("auto", "manual", "inner"):
                 c[p] = rng.choice(cls.CONDS + (None,))
-        return cls({"c": c, "dep": "dl" in c and rng.random() < 0.15, "top": rng.random() < 0.4, "last": rng.random() < 0.4})
+        return cls({"c": c, "dep": "dl" in c and rng.random() < 0.6, "top": rng.random() < 0.4, "last": rng.random() < 0.4})
 
     @staticmethod
     def cond_text(cond, up):
@@ -1290,15 +1290,6 @@ class WhenDefaults(oracles_mod.Oracle):
                     self.emit(ref, st, s, "/m1:box/" + o, None)
         self.emit(ref, st, s, k if k.startswith("/") else "/m1:box/" + k, v)
 
-    STALE = ("when-stale-dependency", ": the when of leaf dep reads leaf dl, itself conditional; a dl node that is about to be "
-             "deleted (its own when is false now) still carries LYD_WHEN_TRUE - from the previous validation or preset by "
-             "lyd_new_implicit - so dep's when is evaluated against it")
-
-    @staticmethod
-    def no_dep(nodes):
-        # (the default flag of the container around dep follows from dep being there or not)
-        return [[n, v, d and v is not None, [x for x in ch if x[0] != "dep"]] for n, v, d, ch in nodes]
-
     def judge(self, line, out):
         import copy
         if oracles_mod.crashed(out):
@@ -1308,7 +1299,6 @@ class WhenDefaults(oracles_mod.Oracle):
             return (None, "the module of the case is not accepted: " + out[:200])
         ref = WhenRef.of_yang(yang)
         st = ref.init()
-        nd = self.no_dep if ref.cfg["dep"] else (lambda t: t)
         rnd = 0
         for e in ev:
             if e[0] == "new":
@@ -1322,7 +1312,7 @@ class WhenDefaults(oracles_mod.Oracle):
                     return None                       # not a document of the explicit content: not judged
                 bad = ref.false_units(st)
                 if bad and rc(e[2]) == 0:
-                    return (self.STALE[0] if bad == ["dep"] else None, "parsing with validation accepts the explicit node %s "
+                    return (None, "parsing with validation accepts the explicit node %s "
                             "whose when is false: %s" % (bad[0], e[1]))
                 if not bad:
                     if rc(e[2]) != 0:
@@ -1330,7 +1320,7 @@ class WhenDefaults(oracles_mod.Oracle):
                     want = ref.canon(ref.nf(copy.deepcopy(st)))
                     got = ref.canon(ref.of_dump(e[3]))
                     if got != want:
-                        return (self.STALE[0] if ref.cfg["dep"] and nd(got) == nd(want) else None,
+                        return (None,
                                 "parsed with validation, %s gives [%s], expected (when conditions evaluated by the reference) [%s]"
                                 % (e[1], ref.show(got), ref.show(want)))
             else:
@@ -1340,7 +1330,7 @@ class WhenDefaults(oracles_mod.Oracle):
                 bad, deleted = ref.resolve(st)
                 if bad:
                     if rc(v["rc1"]) == 0:
-                        return (self.STALE[0] if bad == "dep" else None, "round %d: validation accepts the explicit node %s whose "
+                        return (None, "round %d: validation accepts the explicit node %s whose "
                                 "when is false and was never true (explicit content %s)" % (rnd, bad, before))
                     return None
                 if rc(v["rc1"]) != 0:
@@ -1350,11 +1340,9 @@ class WhenDefaults(oracles_mod.Oracle):
                 got = ref.canon(ref.of_dump(v["d1"]))
                 if got != want:
                     tag, why = None, ""
-                    if ref.cfg["dep"] and nd(got) == nd(want):
-                        tag, why = self.STALE
-                    elif set(deleted) & {"label", "ival", "value"} and rc(v["rc2"]) == 0 and \
-                            nd(ref.canon(ref.of_dump(v["d2"]))) == nd(want) and \
-                            [x for x in nd(want)[-1][3] if x[0] not in ("level", "ilev", "mdef")] == nd(got)[-1][3]:
+                    if set(deleted) & {"label", "ival", "value"} and rc(v["rc2"]) == 0 and \
+                            ref.canon(ref.of_dump(v["d2"])) == want and \
+                            [x for x in want[-1][3] if x[0] not in ("level", "ilev", "mdef")] == got[-1][3]:
                         tag, why = "when-autodel-default-case", ": the explicit nodes of a case were deleted because the when " \
                             "of the case turned false, the default case is only instantiated by the NEXT validation"
                     return (tag, "round %d: after validation of explicit content %s (auto-deleted: %s) the tree is [%s], "
@@ -1363,9 +1351,8 @@ class WhenDefaults(oracles_mod.Oracle):
                     return (None, "round %d: the returned change set applied to the tree before does not give the tree after "
                                   "(apply %s, compare %s)" % (rnd, v["apply"], v["cmp"]))
                 if rc(v["rc2"]) != 0 or DfltModel.only_m1(v["d2"]) != DfltModel.only_m1(v["d1"]):
-                    stale = ref.cfg["dep"] and rc(v["rc2"]) == 0 and nd(ref.of_dump(v["d2"])) == nd(ref.of_dump(v["d1"]))
-                    return (self.STALE[0] if stale else None, "round %d: the second validation changed the tree (%s): [%s]%s"
-                            % (rnd, v["rc2"], ref.show(ref.of_dump(v["d2"])), self.STALE[1] if stale else ""))
+                    return (None, "round %d: the second validation changed the tree (%s): [%s]"
+                            % (rnd, v["rc2"], ref.show(ref.of_dump(v["d2"]))))
                 if v["diff2"] not in (None, "empty"):
                     return (None, "round %d: the second validation reports a non-empty change set" % rnd)
         return None
@@ -1379,3 +1366,96 @@ class WhenDefaultsModule(WhenDefaults):
 
     def n(self, tier, quick, thorough, scale=1.0):
         return super().n(tier, quick // 2, thorough // 2, scale)
+
+
+class WhenResModel(Comp):
+    """lyd_validate_unres_when (when resolution: postponed while a dependency is queued, auto-delete vs error, repeated
+    until the set is empty) vs WhenRes.wrun on generated dependency graphs: leaves n0..nk of one container, leaf i with
+    an optional default and an optional when over the presence / value of leaves with smaller numbers (any and / or /
+    not combination, so chains and diamonds of conditional nodes), histories of lyd_new_path / lyd_free_tree edits
+    and validations. After every validation the present leaves, their values and default flags (or the rejection) must
+    be what the model computes from ITS record of the tree before (ocaml/run_dflt.ml keeps the world, the default
+    flags and which nodes were true before)."""
+    name = "whenres"
+    driver = "lyx"
+    slice = "dflt"
+
+    @staticmethod
+    def rand_expr(rng, i, depth=2):
+        r = rng.random()
+        if depth == 0 or r < 0.45:
+            d = rng.randrange(i)
+            return ("H", d) if rng.random() < 0.5 else ("E", d, rng.choice([1, 2, 5, 6]))
+        if r < 0.65:
+            return ("N", WhenResModel.rand_expr(rng, i, depth - 1))
+        return (rng.choice("AO"), WhenResModel.rand_expr(rng, i, depth - 1), WhenResModel.rand_expr(rng, i, depth - 1))
+
+    @classmethod
+    def prefix(cls, e):
+        if e[0] == "H":
+            return "H%d" % e[1]
+        if e[0] == "E":
+            return "E%d.%d" % (e[1], e[2])
+        return ",".join([e[0]] + [cls.prefix(x) for x in e[1:]])
+
+    @classmethod
+    def xpath(cls, e):
+        if e[0] == "H":
+            return "../n%d" % e[1]
+        if e[0] == "E":
+            return "../n%d = %d" % (e[1], e[2])
+        if e[0] == "N":
+            return "not(%s)" % cls.xpath(e[1])
+        return "(%s) %s (%s)" % (cls.xpath(e[1]), "and" if e[0] == "A" else "or", cls.xpath(e[2]))
+
+    def gen(self, rng, tier, scale=1.0):
+        L = []
+        for i in range(self.n(tier, 500, 10000, scale)):
+            k = rng.randrange(3, 9)
+            whens = {j: self.rand_expr(rng, j) for j in range(1, k) if rng.random() < 0.75}
+            dflts = {j: rng.choice([1, 2]) for j in range(k) if rng.random() < 0.5}
+            leaves = " ".join('leaf n%d {%s type uint8;%s }' % (
+                j, ' when "%s";' % self.xpath(whens[j]) if j in whens else "",
+                ' default "%d";' % dflts[j] if j in dflts else "") for j in range(k))
+            s = Script()
+            s.add("#p", ";".join("%d:%s" % (j, self.prefix(e)) for j, e in sorted(whens.items())) or ";")
+            s.add("#d", ";".join("%d=%d" % jv for jv in sorted(dflts.items())) or ";")
+            s.ctx(opts=0x04)
+            s.mod('module m1 { yang-version 1.1; namespace "urn:m1"; prefix m1; container box { %s } }' % leaves)
+            for rnd in range(rng.choice([2, 3, 4, 5])):
+                for _ in range(rng.choice([0, 1, 2, 3]) if rnd else rng.choice([0, 1, 2, 4])):
+                    j = rng.randrange(k)
+                    if rng.random() < 0.7:
+                        v = rng.choice([5, 6])
+                        s.add("#new", j, v)
+                        s.add("newpath", "t0", "c0", NEWPATH_UPDATE, hexs("/m1:box/n%d" % j), hexs(str(v)))
+                    else:
+                        s.add("#free", j)
+                        s.add("freepath", "t0", hexs("/m1:box/n%d" % j))
+                s.add("val", "t0", "c0", 0)
+                s.dump(0, 0)
+            L.append("whenres\t" + "\t".join(s.cmds))
+        return L
+
+    def norm(self, line, out):
+        if out.startswith("V") or out == "" or out.startswith("E "):
+            return out                               # the model's answer
+        if oracles_mod.crashed(out):
+            return out
+        from vlib import unhex
+        r = results(out)
+        cmds = line.split("\t")[1:]
+        parts = []
+        for k, c in enumerate(cmds):
+            if not c.startswith("val t0") or k + 1 >= len(r):
+                continue
+            if rc(r[k]) != 0:
+                parts.append("VE")
+                break
+            ent = []
+            for sg in DfltModel.only_m1(r[k + 1]).split(";"):
+                p = sg.split(":")
+                if len(p) > 4 and p[0] == "1":
+                    ent.append("%d=%s%s;" % (int(p[2][1:]), unhex(p[3][1:]).decode(), "d" if "d" in p[4] else ""))
+            parts.append("V0 " + "".join(ent))
+        return " | ".join(parts)
